@@ -106,7 +106,8 @@ C16_PORTS = [111, 1, 255, 256, 2049, 32768, 65535]
 def g_c16_portmap(repo, thorough=False):
     """BOUNDED stand-in for the assumed contract of rpc::build_repl_portmap (String/format!/str matching, outside
     the verifier's subset): the portmapper replies of the real binary over UDP are compared with the reply the
-    statement asks for, for versions 1..5 x procedures {0,1,3,4,5} x 4 addresses x 5 (thorough: 7) ports.
+    statement asks for, for versions 1..5 x procedures {0,1,3,4,5} x 4 addresses x 5 (thorough: 7) ports, and all
+    procedure numbers 0..13 and 255 on the first port.
     Returns [(ok, info)]."""
     out = []
     d = R.Driver(repo)
@@ -118,7 +119,8 @@ def g_c16_portmap(repo, thorough=False):
             src = '2001:db8::99' if v6 else '10.0.0.99'
             for port in ports:
                 for vers in (1, 2, 3, 4, 5):
-                    for proc in (0, 1, 3, 4, 5):
+                    # every procedure number of portmapper v2 / rpcbind v3, v4 (0..12) and two beyond
+                    for proc in ((0, 1, 2, 3, 4, 5, 6, 7, 8, 9, 10, 11, 12, 13, 255) if (port == ports[0]) else (0, 1, 3, 4, 5)):
                         xid = 0x11220000 | (vers << 8) | proc
                         call = struct.pack('!IIIIIIIIII', xid, 0, 2, 100000, vers, proc, 0, 0, 0, 0)
                         dg = R.udp(40000, port, call)
@@ -734,9 +736,27 @@ def run(pid, tier, repo, build, seed):
         res['undecided'].append('ground check crashed: %r' % e)
     return res
 
+_WITNESS_CACHE = {}
 def find_witness(pid, failure, repo, build):
+    """a concrete failing input for a reported violation: the ground obligation's own witness, or - for violations
+    reported by the verifier, which gives no counterexample - the result of the bounded search of tools/witness.py
+    (layers 2-4, reference model written from the statements).  The search never creates a violation."""
     if failure.get('witness'):
         return {'witness': failure['witness']}
+    if failure.get('unit') == 'ground':
+        return None
+    if pid not in _WITNESS_CACHE:
+        w = None
+        try:
+            import witness
+            if pid in ('C01', 'C02', 'C03', 'C04', 'C05', 'C06', 'C07', 'C08', 'C09', 'C12'):
+                w = witness.search(pid, repo, budget_s=25.0)
+        except Exception as e:
+            w = None
+        _WITNESS_CACHE[pid] = w
+    w = _WITNESS_CACHE[pid]
+    if w:
+        return {'witness': dict(w, note='failing input found by the bounded witness search (tools/witness.py) on the hook binary; not a counterexample produced by the verifier')}
     return None
 
 def replay(pid, path, repo, build):
@@ -761,6 +781,29 @@ def replay(pid, path, repo, build):
                 print('REPRODUCED' if not ok else 'not reproduced')
                 return 1 if not ok else 0
         return 2
+    if isinstance(w, dict) and w.get('frames_hex') and w.get('disagreements') is not None:
+        # a frame sequence found by tools/witness.py: run it again and compare with the statements' model
+        import witness
+        d = R.Driver(repo)
+        try:
+            cfg = w.get('cfg') or {}
+            d.cfg(mac=R.MAC, self=cfg.get('self', 'none'), deny=cfg.get('deny', 'none')); d.reset()
+            m = witness.Model(lambda a, b, c, e: d.cookie(a, b, c, e), set(cfg['self'].split(',')) if cfg.get('self') else None, set(cfg['deny'].split(',')) if cfg.get('deny') else None)
+            bad = []
+            for fr_hex in w['frames_hex']:
+                fr = bytes.fromhex(fr_hex)
+                exp = m.expect(fr); r = d.frame(fr)
+                got = r[1] if r[0] == 'reply' else None
+                bad = witness.compare(fr, exp, got)
+                print('frame %s\n  -> %s' % (fr_hex, got.hex() if got else r[0]))
+            ts = d.tablesize()
+            if ts != len(m.valid): bad.append('connection table holds %d entries, %d flows presented a valid cookie' % (ts, len(m.valid)))
+        finally:
+            d.close()
+        print('recorded: %s' % w['disagreements'])
+        print('now:      %s' % bad)
+        print('REPRODUCED' if bad else 'not reproduced')
+        return 1 if bad else 0
     if isinstance(w, dict) and w.get('frame_hex') and w.get('expected_payload_hex') is not None:
         # a frame whose application payload reply must equal the expected bytes (C16 portmapper stand-in)
         d = R.Driver(repo)
